@@ -326,6 +326,19 @@ func parsePCR(i *astikit.BytesIterator) (cr *ClockReference, err error) {
 }
 
 func writePacket(w *astikit.BitsWriter, p *Packet, targetPacketSize int) (written int, retErr error) {
+	// Make sure the packet fits before anything is written, so that a rejected packet leaves nothing in the output
+	size := 1 + mpegTsPacketHeaderSize
+	if p.Header.HasAdaptationField {
+		size += packetAdaptationFieldSize(p.AdaptationField)
+	}
+	if targetPacketSize-size < len(p.Payload) {
+		return 0, fmt.Errorf(
+			"writePacket: can't write %d bytes of payload: only %d is available",
+			len(p.Payload),
+			targetPacketSize-size,
+		)
+	}
+
 	if retErr = w.Write(uint8(syncByte)); retErr != nil {
 		return
 	}
@@ -393,6 +406,33 @@ func writePCR(w *astikit.BitsWriter, cr *ClockReference) (int, error) {
 	b.WriteN(uint8(0xff), 6)
 	b.WriteN(uint64(cr.Extension), 9)
 	return pcrBytesSize, b.Err()
+}
+
+// packetAdaptationFieldSize returns the number of bytes writePacketAdaptationField writes (length byte included)
+func packetAdaptationFieldSize(af *PacketAdaptationField) (size int) {
+	if af.IsOneByteStuffing {
+		return 1
+	}
+	size = 2 // length and flags
+	if af.HasPCR {
+		size += pcrBytesSize
+	}
+	if af.HasOPCR {
+		size += pcrBytesSize
+	}
+	if af.HasSplicingCountdown {
+		size++
+	}
+	if af.HasTransportPrivateData {
+		size += 1 + len(af.TransportPrivateData)
+	}
+	if af.HasAdaptationExtensionField {
+		size += 1 + int(calcPacketAdaptationFieldExtensionLength(af.AdaptationExtensionField))
+	}
+	if af.StuffingLength > 0 {
+		size += af.StuffingLength
+	}
+	return
 }
 
 func calcPacketAdaptationFieldLength(af *PacketAdaptationField) (length uint8) {
